@@ -253,11 +253,23 @@ theorem parseLoopAttributes_safe (c : List Nat) (lv endO : Nat) (he : endO < c.l
 
 variable {R : Type}
 
-/-- the matches of this stage -/
-def stageOk (m : Nat) : Prop := m ≤ 4 ∨ m = 7 ∨ m = 8
+/-- the matches of this stage: everything but `{svar:` and the inline `{if` -/
+def stageOk (m : Nat) : Prop := m ≤ 4 ∨ (7 ≤ m ∧ m ≤ 11)
 
-def OnlyLoops (c : List Nat) : Prop :=
+/-- from no offset does the Finder report `{svar:` or `{if` -/
+def OnlyBlocks (c : List Nat) : Prop :=
   ∀ off o m, off ≤ c.length → next c off = .ok (o, m) → stageOk m
+
+/-- … nor `<if`, `</if>`, `<else` -/
+def OnlyLoops (c : List Nat) : Prop :=
+  ∀ off o m, off ≤ c.length → next c off = .ok (o, m) → m ≤ 4 ∨ m = 7 ∨ m = 8
+
+theorem OnlyLoops.blocks {c : List Nat} (h : OnlyLoops c) : OnlyBlocks c := by
+  intro off o m h1 h2
+  rcases h off o m h1 h2 with h | h | h
+  · exact Or.inl h
+  · exact Or.inr (by omega)
+  · exact Or.inr (by omega)
 
 /-- an open `<loop …>` record, checked at the level `lvP` of the list that will contain it -/
 structure OpenLoop (c : List Nat) (lvP : Nat) (f : LoopFields) : Prop where
@@ -278,6 +290,12 @@ inductive StackOk (c : List Nat) : List (Frame R) → Nat → Nat → List LoopR
       OpenLoop c lvP f →
       StackOk c (.loop pre f pc :: rest) (max lvP (f.level + 1)) (f.off + f.contentOff)
         (⟨f.off + f.valueOff, f.valueLen, f.level⟩ :: pc)
+  | ifT (pre : List (Tag R)) (done : List (IfCase R)) (cur : List (Qentem.Expr.Item R)) (curOff off : Nat)
+      (rest : List (Frame R)) (lvP loP b : Nat) (chain : List LoopRef) :
+      StackOk c rest lvP loP chain →
+      wfTags c.length lvP loP b pre = true → b ≤ off → off ≤ curOff → curOff ≤ c.length →
+      wfCases c.length lvP done = true → wfItemVars c.length lvP cur = true →
+      StackOk c (.ifT pre done cur curOff off :: rest) lvP curOff chain
 
 theorem StackOk.chain {c : List Nat} {stack : List (Frame R)} {lv lo : Nat} {chain : List LoopRef}
     (h : StackOk c stack lv lo chain) : ChainOk c chain ∧ ∀ l ∈ chain, l.level < lv := by
@@ -293,36 +311,38 @@ theorem StackOk.chain {c : List Nat} {stack : List (Frame R)} {lv lo : Nat} {cha
       rcases List.mem_cons.mp hl with h | h
       · subst h; simp only []; omega
       · have := ih.2 l h; omega
+  | ifT pre done cur curOff off rest lvP loP b chain _ _ _ _ _ _ _ ih => exact ih
 
-/-- the current match `m`, ending at `off`: it fits, and unless it is `</loop>` its units are
-neither `}` nor `>` -/
+/-- the current match `m`, ending at `off`: it fits, and unless it is `</loop>` / `</if>` its
+units are neither `}` nor `>` -/
 def CurOk (c : List Nat) (off m : Nat) : Prop :=
   mLen m ≤ off ∧
-  (2 ≤ m → m ≠ 8 → ∀ i, off ≤ i + mLen m → i < off → ∀ x, c[i]? = some x → ¬ isStop x)
+  (2 ≤ m → m ≠ 8 → m ≠ 10 → ∀ i, off ≤ i + mLen m → i < off → ∀ x, c[i]? = some x → ¬ isStop x)
 
 theorem NextFacts.cur {c : List Nat} {off0 o m : Nat} (hs : stageOk m) (h : NextFacts c off0 o m) :
     CurOk c o m := by
   refine ⟨by have := h.start; omega, ?_⟩
-  intro h2 h8 i h1 h3 x hx hstop
+  intro h2 h8 h10 i h1 h3 x hx hstop
   rcases hstop with h125 | h62
   · exact h.word h2 i h1 h3 x hx h125
-  · exact h.nogt h2 h8 (by rcases hs with h | h | h <;> omega) i h1 h3 x hx h62
+  · exact h.nogt h2 h8 h10 i h1 h3 x hx h62
 
 structure LInv (c : List Nat) (st : PState R) : Prop where
   child : st.isChild = false
-  off : st.off ≤ c.length
+  off : st.mtch ≠ 0 → st.off ≤ c.length
   mtch : stageOk st.mtch
   cur : CurOk c st.off st.mtch
   ctx : ∃ lv lo, StackOk c st.stack lv lo st.loopChain ∧
     ((∃ b, wfTags c.length lv lo b st.storage = true ∧ b + mLen st.mtch ≤ st.off) ∨
-     (st.storage = [] ∧ st.mtch = 8 ∧ lo ≤ st.off))
+     (st.storage = [] ∧ (st.mtch = 8 ∨ st.mtch = 10) ∧ lo ≤ st.off ∧
+      ∃ pre f pc rest, st.stack = .loop pre f pc :: rest))
 
 /-- what `finder.Next()` leaves untouched and guarantees -/
 def NextPostL (c : List Nat) (st st' : PState R) : Prop :=
   st'.storage = st.storage ∧ st'.stack = st.stack ∧ st'.loopChain = st.loopChain ∧
   st'.isChild = st.isChild ∧ stageOk st'.mtch ∧ NextFacts c st.off st'.off st'.mtch
 
-theorem finderNext_L (c : List Nat) (hn : c.length + 16 < 4294967296) (h : OnlyLoops c)
+theorem finderNext_L (c : List Nat) (hn : c.length + 16 < 4294967296) (h : OnlyBlocks c)
     (st : PState R) (hoff : st.off ≤ c.length) : Safe (finderNext c st) (NextPostL c st) := by
   obtain ⟨o, m, h1, _⟩ := next_safe_total c st.off hoff
   have hf := next_facts c hn st.off o m hoff h1
@@ -423,18 +443,18 @@ theorem wfTags_le (n lv : Nat) : ∀ (tags : List (Tag R)) (lo b : Nat),
       omega
 
 /-- a stray `}` -/
-theorem stepLineEnd_L (c : List Nat) (hn : c.length + 16 < 4294967296) (h : OnlyLoops c)
+theorem stepLineEnd_L (c : List Nat) (hn : c.length + 16 < 4294967296) (h : OnlyBlocks c)
     (st : PState R) (hi : LInv c st) (hm : st.mtch = 1) : Safe (stepLineEnd c st) (LInv c) := by
   have hstep : stepLineEnd c st = finderNext c st := by
     simp only [stepLineEnd, hi.child]
     rfl
   rw [hstep]
-  apply Safe.mono (finderNext_L c hn h st hi.off)
+  apply Safe.mono (finderNext_L c hn h st (hi.off (by omega)))
   intro st' hp
   obtain ⟨p1, p2, p3, p4, p5, p6⟩ := hp
   obtain ⟨lv, lo, hs, hw⟩ := hi.ctx
-  refine ⟨p4.trans hi.child, p6.le, p5, p6.cur p5, lv, lo, by rw [p2, p3]; exact hs, ?_⟩
-  rcases hw with ⟨b, hb, hbo⟩ | ⟨_, h8, _⟩
+  refine ⟨p4.trans hi.child, fun _ => p6.le, p5, p6.cur p5, lv, lo, by rw [p2, p3]; exact hs, ?_⟩
+  rcases hw with ⟨b, hb, hbo⟩ | ⟨_, h8, _, _⟩
   · refine Or.inl ⟨b, by rw [p1]; exact hb, ?_⟩
     rw [hm] at hbo; simp only [mLen] at hbo
     have := p6.start; omega
@@ -442,18 +462,18 @@ theorem stepLineEnd_L (c : List Nat) (hn : c.length + 16 < 4294967296) (h : Only
 
 
 /-- `{var:…}` / `{raw:…}` at any loop depth -/
-theorem stepVar_L (c : List Nat) (hn : c.length + 16 < 4294967296) (h : OnlyLoops c)
+theorem stepVar_L (c : List Nat) (hn : c.length + 16 < 4294967296) (h : OnlyBlocks c)
     (st : PState R) (hi : LInv c st) (raw : Bool) (hm : st.mtch = 2 ∨ st.mtch = 3) :
     Safe (stepVar c st raw) (LInv c) := by
   obtain ⟨lv, lo, hs, hw⟩ := hi.ctx
   have hml : mLen st.mtch = 5 := by rcases hm with h | h <;> rw [h] <;> rfl
   obtain ⟨b, hb, hbo⟩ : ∃ b, wfTags c.length lv lo b st.storage = true ∧ b + mLen st.mtch ≤ st.off := by
-    rcases hw with hw | ⟨_, h8, _⟩
+    rcases hw with hw | ⟨_, h8, _, _⟩
     · exact hw
     · omega
   obtain ⟨hchain, hlevels⟩ := hs.chain
   simp only [stepVar]
-  apply Safe.bind (finderNext_L c hn h st hi.off)
+  apply Safe.bind (finderNext_L c hn h st (hi.off (by omega)))
   intro st1 hp1
   obtain ⟨p1, p2, p3, p4, p5, p6⟩ := hp1
   split
@@ -492,9 +512,9 @@ theorem stepVar_L (c : List Nat) (hn : c.length + 16 < 4294967296) (h : OnlyLoop
       apply Safe.mono (finderNext_L c hn h s2 (by rw [q4]; exact ho1))
       intro st3 hp3
       obtain ⟨r1, r2, r3, r4, r5, r6⟩ := hp3
-      refine ⟨r4.trans q3, r6.le, r5, r6.cur r5, lv, lo, by rw [r2, r3, q1, q2]; exact hs, Or.inl ⟨b', by rw [r1]; exact hb', ?_⟩⟩
+      refine ⟨r4.trans q3, fun _ => r6.le, r5, r6.cur r5, lv, lo, by rw [r2, r3, q1, q2]; exact hs, Or.inl ⟨b', by rw [r1]; exact hb', ?_⟩⟩
       have := r6.start; rw [q4] at this; omega
-  · refine Safe.ok _ ⟨p4.trans hi.child, p6.le, p5, p6.cur p5, lv, lo, by rw [p2, p3]; exact hs,
+  · refine Safe.ok _ ⟨p4.trans hi.child, fun _ => p6.le, p5, p6.cur p5, lv, lo, by rw [p2, p3]; exact hs,
       Or.inl ⟨b, by rw [p1]; exact hb, ?_⟩⟩
     have := p6.start; omega
 
@@ -505,7 +525,7 @@ def MathQL (c : List Nat) (st0 : PState R) (lo : Nat) (st : PState R) : Prop :=
   st.isChild = st0.isChild ∧ st.off ≤ c.length ∧ stageOk st.mtch ∧ lo + mLen st.mtch ≤ st.off ∧
   CurOk c st.off st.mtch
 
-theorem mathQL_next (c : List Nat) (hn : c.length + 16 < 4294967296) (h : OnlyLoops c)
+theorem mathQL_next (c : List Nat) (hn : c.length + 16 < 4294967296) (h : OnlyBlocks c)
     (st0 : PState R) (lo : Nat) (st : PState R) (hq : MathQL c st0 lo st) :
     Safe (finderNext c st) (fun st' => MathQL c st0 lo st' ∧ st.off + mLen st'.mtch ≤ st'.off) := by
   obtain ⟨q1, q2, q3, q4, q5, q6, q7, q8⟩ := hq
@@ -515,7 +535,7 @@ theorem mathQL_next (c : List Nat) (hn : c.length + 16 < 4294967296) (h : OnlyLo
   have := p6.start
   exact ⟨⟨p1.trans q1, p2.trans q2, p3.trans q3, p4.trans q4, p6.le, p5, by omega, p6.cur p5⟩, this⟩
 
-theorem mathScan_L (c : List Nat) (hn : c.length + 16 < 4294967296) (h : OnlyLoops c)
+theorem mathScan_L (c : List Nat) (hn : c.length + 16 < 4294967296) (h : OnlyBlocks c)
     (st0 : PState R) (lo : Nat) : ∀ (fuel : Nat) (st : PState R) (skip : Nat),
     MathQL c st0 lo st →
     Safe (mathScan c fuel st skip) (fun r => MathQL c st0 lo r.1 ∧
@@ -621,17 +641,17 @@ theorem itemsAll_wf (c : List Nat) (lv : Nat) (chain : List LoopRef) : ∀ (item
 end
 
 /-- `{math:…}` at any loop depth -/
-theorem stepMath_L (cfg : ScanCfg R) (c : List Nat) (hn : c.length + 16 < 4294967296) (h : OnlyLoops c)
+theorem stepMath_L (cfg : ScanCfg R) (c : List Nat) (hn : c.length + 16 < 4294967296) (h : OnlyBlocks c)
     (st : PState R) (hi : LInv c st) (hm : st.mtch = 4) : Safe (stepMath cfg c st) (LInv c) := by
   obtain ⟨lv, lo, hs, hw⟩ := hi.ctx
   have hml : mLen st.mtch = 6 := by rw [hm]; rfl
   obtain ⟨b, hb, hbo⟩ : ∃ b, wfTags c.length lv lo b st.storage = true ∧ b + mLen st.mtch ≤ st.off := by
-    rcases hw with hw | ⟨_, h8, _⟩
+    rcases hw with hw | ⟨_, h8, _, _⟩
     · exact hw
     · omega
   obtain ⟨hchain, hlevels⟩ := hs.chain
   simp only [stepMath]
-  apply Safe.bind (finderNext_L c hn h st hi.off)
+  apply Safe.bind (finderNext_L c hn h st (hi.off (by omega)))
   intro st1 hp1
   obtain ⟨p1, p2, p3, p4, p5, p6⟩ := hp1
   have hq1 : MathQL c st st.off st1 := ⟨p1, p2, p3, p4, p6.le, p5, p6.start, p6.cur p5⟩
@@ -656,26 +676,26 @@ theorem stepMath_L (cfg : ScanCfg R) (c : List Nat) (hn : c.length + 16 < 429496
     have hst : wfTags c.length lv lo e (st2.storage ++ [Tag.math ex (st.off - W1.mathPrefixLength) e]) = true := by
       rw [q1]
       exact wfTags_snoc _ _ _ _ _ htag _ _ _ _ hb (by omega) (Nat.le_refl _) hlen
-    exact Safe.ok _ ⟨q4.trans hi.child, q5, q6, q8, lv, lo, by rw [q2, q3]; exact hs, Or.inl ⟨e, hst, e2⟩⟩
-  · exact Safe.ok _ ⟨q4.trans hi.child, q5, q6, q8, lv, lo, by rw [q2, q3]; exact hs,
+    exact Safe.ok _ ⟨q4.trans hi.child, fun _ => q5, q6, q8, lv, lo, by rw [q2, q3]; exact hs, Or.inl ⟨e, hst, e2⟩⟩
+  · exact Safe.ok _ ⟨q4.trans hi.child, fun _ => q5, q6, q8, lv, lo, by rw [q2, q3]; exact hs,
       Or.inl ⟨b, by rw [q1]; exact hb, by omega⟩⟩
 
 
 /-- `<loop …>`: a new open container -/
-theorem stepLoop_L (c : List Nat) (hn : c.length + 16 < 4294967296) (h : OnlyLoops c)
+theorem stepLoop_L (c : List Nat) (hn : c.length + 16 < 4294967296) (h : OnlyBlocks c)
     (st : PState R) (hi : LInv c st) (hm : st.mtch = 7) : Safe (stepLoop c st) (LInv c) := by
   obtain ⟨lv, lo, hs, hw⟩ := hi.ctx
   have hml : mLen st.mtch = 5 := by rw [hm]; rfl
   obtain ⟨b, hb, hbo⟩ : ∃ b, wfTags c.length lv lo b st.storage = true ∧ b + mLen st.mtch ≤ st.off := by
-    rcases hw with hw | ⟨_, h8, _⟩
+    rcases hw with hw | ⟨_, h8, _, _⟩
     · exact hw
     · omega
   obtain ⟨hchain, hlevels⟩ := hs.chain
   obtain ⟨hcur1, hcur2⟩ := hi.cur
-  have hcurw := hcur2 (by omega) (by omega)
+  have hcurw := hcur2 (by omega) (by omega) (by omega)
   have h5 : W1.loopPrefixLength = 5 := by decide
   simp only [stepLoop]
-  apply Safe.bind (finderNext_L c hn h st hi.off)
+  apply Safe.bind (finderNext_L c hn h st (hi.off (by omega)))
   intro st1 hp1
   obtain ⟨p1, p2, p3, p4, p5, p6⟩ := hp1
   have ho1 : st1.off ≤ c.length := p6.le
@@ -737,7 +757,7 @@ theorem stepLoop_L (c : List Nat) (hn : c.length + 16 < 4294967296) (h : OnlyLoo
       · simp only [hoff]; omega
     have hstack := StackOk.loop (c := c) st.storage { tag with contentOff := co } st.loopChain st.stack lv lo b hs hb
       (by simp only [hoff]; omega) hopen
-    refine Safe.ok _ ⟨?_, ho1, p5, p6.cur p5, max lv (tag.level + 1), tag.off + co, ?_, ?_⟩
+    refine Safe.ok _ ⟨?_, fun _ => ho1, p5, p6.cur p5, max lv (tag.level + 1), tag.off + co, ?_, ?_⟩
     · simp only [push]; exact p4.trans hi.child
     · simp only [push, p1, p2, p3]; exact hstack
     · simp only [push]
@@ -745,14 +765,15 @@ theorem stepLoop_L (c : List Nat) (hn : c.length + 16 < 4294967296) (h : OnlyLoo
       · refine Or.inl ⟨gt + 1, ?_, hfit⟩
         simp only [wfTags, decide_eq_true_eq, hoff]
         omega
-      · refine Or.inr ⟨trivial, ?_, ?_⟩
-        · -- the `>` lies inside the next match: only `</loop>` has one
+      · refine Or.inr ⟨trivial, ?_, ?_, _, _, _, _, rfl⟩
+        · -- the `>` lies inside the next match: only `</loop>` and `</if>` have one
           by_cases hm2 : 2 ≤ st1.mtch
           · by_cases h8 : st1.mtch = 8
-            · exact h8
-            · exfalso
-              have h10 : st1.mtch ≠ 10 := by rcases p5 with h | h | h <;> omega
-              exact p6.nogt hm2 h8 h10 gt (by omega) hlt 62 hc62 rfl
+            · exact Or.inl h8
+            · by_cases h10 : st1.mtch = 10
+              · exact Or.inr h10
+              · exfalso
+                exact p6.nogt hm2 h8 h10 gt (by omega) hlt 62 hc62 rfl
           · exfalso
             have : st1.mtch = 0 ∨ st1.mtch = 1 := by omega
             rcases this with h0 | h1
@@ -763,53 +784,71 @@ theorem stepLoop_L (c : List Nat) (hn : c.length + 16 < 4294967296) (h : OnlyLoo
               rw [← hi3, hc62] at this
               cases this
         · simp only [hoff]; omega
-  · exact Safe.ok _ ⟨p4.trans hi.child, ho1, p5, p6.cur p5, lv, lo, by rw [p2, p3]; exact hs,
+  · exact Safe.ok _ ⟨p4.trans hi.child, fun _ => ho1, p5, p6.cur p5, lv, lo, by rw [p2, p3]; exact hs,
       Or.inl ⟨b, by rw [p1]; exact hb, by omega⟩⟩
 
 
-/-- after the container handling of `</loop>`: a list at some level with a bound `≤ off`, then
-`finder.Next()` -/
-theorem loopEnd_finish (c : List Nat) (hn : c.length + 16 < 4294967296) (h : OnlyLoops c)
-    (s2 : PState R) (hc : s2.isChild = false) (ho : s2.off ≤ c.length)
+theorem finderNext_beyond (c : List Nat) (st : PState R) (h : c.length < st.off) :
+    finderNext c st = .ok { st with mtch := 0 } := by
+  simp [finderNext, next, show c.length + 1 - st.off = 0 by omega, nextF, bind, Except.bind]
+
+/-- a list at some level with a bound `≤ off`, then `finder.Next()` -/
+theorem finish (c : List Nat) (hn : c.length + 16 < 4294967296) (h : OnlyBlocks c)
+    (s2 : PState R) (hc : s2.isChild = false)
     (hctx : ∃ lv2 lo2 b2, StackOk c s2.stack lv2 lo2 s2.loopChain ∧
       wfTags c.length lv2 lo2 b2 s2.storage = true ∧ b2 ≤ s2.off) :
     Safe (finderNext c s2) (LInv c) := by
   obtain ⟨lv2, lo2, b2, hs2, hb2, hbo2⟩ := hctx
-  apply Safe.mono (finderNext_L c hn h s2 ho)
-  intro st3 hp3
-  obtain ⟨r1, r2, r3, r4, r5, r6⟩ := hp3
-  refine ⟨r4.trans hc, r6.le, r5, r6.cur r5, lv2, lo2, by rw [r2, r3]; exact hs2,
-    Or.inl ⟨b2, by rw [r1]; exact hb2, ?_⟩⟩
-  have := r6.start; omega
+  by_cases ho : s2.off ≤ c.length
+  · apply Safe.mono (finderNext_L c hn h s2 ho)
+    intro st3 hp3
+    obtain ⟨r1, r2, r3, r4, r5, r6⟩ := hp3
+    refine ⟨r4.trans hc, fun _ => r6.le, r5, r6.cur r5, lv2, lo2, by rw [r2, r3]; exact hs2,
+      Or.inl ⟨b2, by rw [r1]; exact hb2, ?_⟩⟩
+    have := r6.start; omega
+  · rw [finderNext_beyond c s2 (by omega)]
+    refine Safe.ok _ ⟨hc, fun h => absurd rfl h, Or.inl (by simp), ⟨by simp [mLen], by intro h; simp at h⟩,
+      lv2, lo2, hs2, Or.inl ⟨b2, hb2, by simp [mLen]; exact hbo2⟩⟩
 
-/-- `</loop>`: the innermost open loop is closed (or dropped when its end lies before its content) -/
-theorem stepLoopEnd_L (c : List Nat) (hn : c.length + 16 < 4294967296) (h : OnlyLoops c)
+/-- `</loop>`: the innermost open loop is closed (or dropped when its end lies before its content);
+ignored when the innermost open container is not a loop -/
+theorem stepLoopEnd_L (c : List Nat) (hn : c.length + 16 < 4294967296) (h : OnlyBlocks c)
     (st : PState R) (hi : LInv c st) (hm : st.mtch = 8) : Safe (stepLoopEnd c st) (LInv c) := by
   obtain ⟨storage, stack, chain, child, off, mtch⟩ := st
   obtain ⟨lv, lo, hs, hw⟩ := hi.ctx
   have hchild := hi.child
-  have hoff := hi.off
+  have hoff0 := hi.off
   have hcur := hi.cur.1
-  simp only [] at hs hw hm hchild hoff hcur
+  simp only [] at hs hw hm hchild hoff0 hcur
   subst hm
+  have hoff : off ≤ c.length := hoff0 (by omega)
   have h7 : off ≥ 7 := by simp only [mLen] at hcur; omega
   have hsuf : W1.loopSuffixLength = 7 := by decide
   simp only [stepLoopEnd]
   cases hs with
   | nil =>
     simp only [pure, Except.pure, bind, Except.bind]
-    apply loopEnd_finish c hn h _ hchild hoff
-    rcases hw with ⟨b, hb, hbo⟩ | ⟨he, _, _⟩
-    · exact ⟨0, 0, b, .nil, hb, by simp only []; omega⟩
-    · exact ⟨0, 0, 0, .nil, by simp only [] at he ⊢; rw [he]; simp [wfTags], by omega⟩
+    apply finish c hn h _ hchild
+    rcases hw with ⟨b, hb, hbo⟩ | ⟨_, _, _, _, _, _, _, hstk⟩
+    · exact ⟨0, 0, b, .nil, hb, by simp only [mLen] at hbo ⊢; omega⟩
+    · cases hstk
+  | ifT pre done cur curOff0 off0 rest lvP loP bP chain0 hsr hbP hbf hoc hcn hdone hcurw =>
+    have hfin : Safe (finderNext c (⟨storage, Frame.ifT pre done cur lo off0 :: rest, chain, child, off, 8⟩ : PState R))
+        (LInv c) := by
+      apply finish c hn h _ hchild
+      rcases hw with ⟨b, hb, hbo⟩ | ⟨_, _, _, _, _, _, _, hstk⟩
+      · exact ⟨lv, lo, b, .ifT pre done cur lo off0 rest lv loP bP chain hsr hbP hbf hoc hcn hdone hcurw, hb,
+          by simp only [mLen] at hbo ⊢; omega⟩
+      · cases hstk
+    cases chain <;> simp only [pure, Except.pure, bind, Except.bind] <;> exact hfin
   | loop pre f pc rest lvP loP bP hsr hbP hbf hopen =>
     simp only [pure, Except.pure, bind, Except.bind]
-    apply loopEnd_finish c hn h _ hchild hoff
+    apply finish c hn h _ hchild
     simp only []
     by_cases hdrop : off - W1.loopSuffixLength < f.off + f.contentOff
     · simp only [hdrop, if_true]
       refine ⟨lvP, loP, bP, hsr, hbP, ?_⟩
-      rcases hw with ⟨b, hb, hbo⟩ | ⟨_, _, hlo⟩
+      rcases hw with ⟨b, hb, hbo⟩ | ⟨_, _, hlo, _⟩
       · have := wfTags_bounds _ _ _ _ _ hb
         have hlob : f.off + f.contentOff ≤ b := wfTags_le _ _ _ _ _ hb
         simp only [mLen] at hbo
@@ -818,7 +857,7 @@ theorem stepLoopEnd_L (c : List Nat) (hn : c.length + 16 < 4294967296) (h : Only
     · simp only [hdrop, if_false]
       have hend : f.off + f.contentOff ≤ off - 7 := by rw [hsuf] at hdrop; omega
       have hsub : wfTags c.length (max lvP (f.level + 1)) (f.off + f.contentOff) (off - 7) storage = true := by
-        rcases hw with ⟨b, hb, hbo⟩ | ⟨he, _, _⟩
+        rcases hw with ⟨b, hb, hbo⟩ | ⟨he, _, _, _⟩
         · simp only [mLen] at hbo
           exact wfTags_mono _ _ _ _ _ _ hb (by omega) (by omega)
         · rw [he]; simp only [wfTags, decide_eq_true_eq]; omega
@@ -831,12 +870,237 @@ theorem stepLoopEnd_L (c : List Nat) (hn : c.length + 16 < 4294967296) (h : Only
         congr 2; omega
       exact ⟨lvP, loP, off, hsr, wfTags_snoc _ _ _ _ _ htag _ _ _ _ hbP hbf (Nat.le_refl _) hoff, Nat.le_refl _⟩
 
+
+/-! ## `<if case="…">`, `<else …>`, `</if>` -/
+
+theorem wfCases_snoc (n lv : Nat) (cs : List (Qentem.Expr.Item R)) (sub : List (Tag R)) (o e : Nat) :
+    ∀ (done : List (IfCase R)), wfCases n lv (done ++ [IfCase.mk cs sub o e]) =
+      (wfCases n lv done && (wfItemVars n lv cs && wfTags n lv o e sub)) := by
+  intro done
+  induction done with
+  | nil => simp [wfCases]
+  | cons x rest ih =>
+    cases x with
+    | mk a b c d => simp only [List.cons_append, wfCases, ih, Bool.and_assoc]
+
+theorem parseIfCase_safe (c : List Nat) (off0 : Nat) :
+    Safe (parseIfCase c off0 c.length)
+      (fun r => off0 ≤ r.1 ∧ (r.1 < c.length → r.2.2 < c.length)) := by
+  simp only [parseIfCase]
+  apply Safe.bind (skipW_safe c c.length _ (Nat.le_refl _) off0)
+  intro off hoff
+  apply Safe.bind (andEqualAt_safe _ c off W1.caseStr (by
+    intro hc
+    simp only [Bool.and_eq_true, decide_eq_true_eq] at hc
+    have : W1.caseStr.length = W1.caseLength := by decide
+    rw [this]; omega))
+  intro b _
+  split
+  · apply Safe.bind (skipW_safe c c.length _ (Nat.le_refl _) (off + W1.caseLength))
+    intro o2 ho2
+    simp only [doSkipW]
+    apply Safe.bind (skipW_safe c c.length _ (Nat.le_refl _) (o2 + 1))
+    intro o3 ho3
+    split
+    · rename_i hlt
+      simp only [rd_ok c o3 hlt, bind, Except.bind]
+      apply Safe.bind (skipW_safe c c.length _ (Nat.le_refl _) (o3 + 1))
+      intro ce hce
+      have hcele : ce ≤ c.length := hce.2.1 (by omega)
+      apply Safe.bind (skipW_safe c c.length _ (Nat.le_refl _) ce)
+      intro gt hgt
+      refine Safe.ok _ ⟨by simp only []; omega, ?_⟩
+      intro h; simp only [] at h ⊢; omega
+    · refine Safe.ok _ ⟨by simp only []; omega, ?_⟩
+      intro h; simp only [] at h ⊢; omega
+  · refine Safe.ok _ ⟨hoff.1, ?_⟩
+    intro h; simp only [] at h ⊢; omega
+
+theorem elseScan_safe (c : List Nat) : ∀ (fuel off : Nat),
+    Safe (elseScan c fuel off) (fun r => off ≤ r.1) := by
+  intro fuel
+  induction fuel with
+  | zero => intro off; exact Safe.ok _ (Nat.le_refl _)
+  | succ fuel ih =>
+    intro off
+    simp only [elseScan]
+    split
+    · rename_i hlt
+      simp only [rd_ok c off hlt, bind, Except.bind]
+      split
+      · exact Safe.ok _ (Nat.le_refl _)
+      · split
+        · exact Safe.ok _ (by simp only []; omega)
+        · exact Safe.mono (ih (off + 1)) (fun r hr => by omega)
+    · exact Safe.ok _ (Nat.le_refl _)
+
+/-- the first disjunct of the context when the match is not `</loop>` / `</if>` -/
+theorem LInv.first {c : List Nat} {st : PState R} (hi : LInv c st) (h8 : st.mtch ≠ 8) (h10 : st.mtch ≠ 10) :
+    ∃ lv lo b, StackOk c st.stack lv lo st.loopChain ∧
+      wfTags c.length lv lo b st.storage = true ∧ b + mLen st.mtch ≤ st.off := by
+  obtain ⟨lv, lo, hs, hw⟩ := hi.ctx
+  rcases hw with ⟨b, hb, hbo⟩ | ⟨_, h, _, _⟩
+  · exact ⟨lv, lo, b, hs, hb, hbo⟩
+  · omega
+
+/-- `<if case="…">` -/
+theorem stepIf_L (cfg : ScanCfg R) (c : List Nat) (hn : c.length + 16 < 4294967296) (h : OnlyBlocks c)
+    (st : PState R) (hi : LInv c st) (hm : st.mtch = 9) : Safe (stepIf cfg c st) (LInv c) := by
+  obtain ⟨lv, lo, b, hs, hb, hbo⟩ := hi.first (by omega) (by omega)
+  have hml : mLen st.mtch = 3 := by rw [hm]; rfl
+  obtain ⟨hchain, hlevels⟩ := hs.chain
+  have h3 : W1.ifPrefixLength = 3 := by decide
+  simp only [stepIf]
+  apply Safe.bind (parseIfCase_safe c st.off)
+  intro r hr
+  obtain ⟨off', caseOff, caseEnd⟩ := r
+  obtain ⟨hr1, hr2⟩ := hr
+  simp only [] at hr1 hr2 ⊢
+  refine Safe.bind (P := fun s2 : PState R => s2.isChild = false ∧
+    ∃ lv2 lo2 b2, StackOk c s2.stack lv2 lo2 s2.loopChain ∧
+      wfTags c.length lv2 lo2 b2 s2.storage = true ∧ b2 ≤ s2.off) ?_ ?_
+  · split
+    · rename_i hlt
+      apply Safe.bind (exprs_L cfg c lv st.loopChain hchain hlevels caseOff caseEnd (hr2 hlt))
+      intro cs hcs
+      refine Safe.ok _ ⟨hi.child, lv, off', off', ?_, ?_, Nat.le_refl _⟩
+      · simp only [push]
+        exact .ifT st.storage [] cs off' (st.off - W1.ifPrefixLength) st.stack lv lo b st.loopChain hs hb
+          (by rw [h3]; omega) (by rw [h3]; omega) (by omega) (by simp [wfCases]) (itemsAll_wf c lv _ cs hcs)
+      · simp only [push, wfTags, decide_eq_true_eq]; omega
+    · exact Safe.ok _ ⟨hi.child, lv, lo, b, hs, hb, by simp only []; omega⟩
+  · intro s2 hs2
+    exact finish c hn h s2 hs2.1 hs2.2
+
+/-- `</if>`: the innermost open `<if>` is closed; ignored when the innermost open container is a
+loop -/
+theorem stepIfEnd_L (c : List Nat) (hn : c.length + 16 < 4294967296) (h : OnlyBlocks c)
+    (st : PState R) (hi : LInv c st) (hm : st.mtch = 10) : Safe (stepIfEnd c st) (LInv c) := by
+  obtain ⟨storage, stack, chain, child, off, mtch⟩ := st
+  obtain ⟨lv, lo, hs, hw⟩ := hi.ctx
+  have hchild := hi.child
+  have hoff0 := hi.off
+  simp only [] at hs hw hm hchild hoff0
+  subst hm
+  have hoff : off ≤ c.length := hoff0 (by omega)
+  have hsuf : W1.ifSuffixLength = 5 := by decide
+  simp only [stepIfEnd]
+  cases hs with
+  | nil =>
+    apply finish c hn h _ hchild
+    rcases hw with ⟨b, hb, hbo⟩ | ⟨_, _, _, _, _, _, _, hstk⟩
+    · exact ⟨0, 0, b, .nil, hb, by simp only [mLen] at hbo ⊢; omega⟩
+    · cases hstk
+  | loop pre f pc rest lvP loP bP hsr hbP hbf hopen =>
+    apply finish c hn h _ hchild
+    have hst := StackOk.loop (c := c) pre f pc rest lvP loP bP hsr hbP hbf hopen
+    rcases hw with ⟨b, hb, hbo⟩ | ⟨he, _, hlo, _⟩
+    · exact ⟨_, _, b, hst, hb, by simp only [mLen] at hbo ⊢; omega⟩
+    · refine ⟨_, _, f.off + f.contentOff, hst, ?_, hlo⟩
+      simp only [] at he ⊢
+      rw [he]; simp only [wfTags, decide_eq_true_eq]; omega
+  | ifT pre done cur curOff0 off0 rest lvP loP bP chain0 hsr hbP hbf hoc hcn hdone hcurw =>
+    apply finish c hn h _ hchild
+    simp only []
+    rcases hw with ⟨b, hb, hbo⟩ | ⟨_, _, _, _, _, _, _, hstk⟩
+    · simp only [mLen] at hbo
+      have hlob : lo ≤ b := wfTags_le _ _ _ _ _ hb
+      have hsub : wfTags c.length lv lo (off - W1.ifSuffixLength) storage = true := by
+        rw [hsuf]; exact wfTags_mono _ _ _ _ _ _ hb (by omega) (by omega)
+      have htag : wfTag c.length lv (Tag.ifT (done ++ [IfCase.mk cur storage lo (off - W1.ifSuffixLength)]) off0 off : Tag R) =
+          some (off0, off) := by
+        simp only [wfTag, wfCases_snoc, hdone, hcurw, hsub, Bool.and_true]
+        rw [if_pos (by simp only [decide_eq_true_eq]; omega)]
+      exact ⟨lv, loP, off, hsr, wfTags_snoc _ _ _ _ _ htag _ _ _ _ hbP hbf (Nat.le_refl _) hoff, Nat.le_refl _⟩
+    · cases hstk
+
+
+/-- `finder.Next()` from any offset (beyond the end: no match) -/
+theorem finderNext_any (c : List Nat) (hn : c.length + 16 < 4294967296) (h : OnlyBlocks c) (s : PState R) :
+    Safe (finderNext c s) (fun s' => s'.storage = s.storage ∧ s'.stack = s.stack ∧
+      s'.loopChain = s.loopChain ∧ s'.isChild = s.isChild ∧ stageOk s'.mtch ∧ CurOk c s'.off s'.mtch ∧
+      s.off + mLen s'.mtch ≤ s'.off ∧ (s'.mtch ≠ 0 → s'.off ≤ c.length) ∧
+      (s.off ≤ c.length → s'.off ≤ c.length)) := by
+  by_cases ho : s.off ≤ c.length
+  · apply Safe.mono (finderNext_L c hn h s ho)
+    intro s' hp
+    obtain ⟨p1, p2, p3, p4, p5, p6⟩ := hp
+    exact ⟨p1, p2, p3, p4, p5, p6.cur p5, p6.start, fun _ => p6.le, fun _ => p6.le⟩
+  · rw [finderNext_beyond c s (by omega)]
+    exact Safe.ok _ ⟨rfl, rfl, rfl, rfl, Or.inl (by simp), ⟨by simp [mLen], by intro h; simp at h⟩,
+      by simp [mLen], fun h => absurd rfl h, fun h => absurd h ho⟩
+
+/-- `<else>` / `<elseif case="…">` -/
+theorem stepElse_L (cfg : ScanCfg R) (c : List Nat) (hn : c.length + 16 < 4294967296) (h : OnlyBlocks c)
+    (st : PState R) (hi : LInv c st) (hm : st.mtch = 11) : Safe (stepElse cfg c st) (LInv c) := by
+  obtain ⟨storage, stack, chain, child, off, mtch⟩ := st
+  obtain ⟨lv, lo, b, hs, hb, hbo⟩ := hi.first (by simp only [] at hm ⊢; omega) (by simp only [] at hm ⊢; omega)
+  have hchild := hi.child
+  have hoff0 := hi.off
+  simp only [] at hs hb hbo hm hchild hoff0
+  subst hm
+  have hoff : off ≤ c.length := hoff0 (by omega)
+  simp only [mLen] at hbo
+  have hpre : W1.elsePrefixLength = 5 := by decide
+  simp only [stepElse]
+  cases hs with
+  | nil => exact finish c hn h _ hchild ⟨0, 0, b, .nil, hb, by simp only []; omega⟩
+  | loop pre f pc rest lvP loP bP hsr hbP hbf hopen =>
+    exact finish c hn h _ hchild ⟨_, _, b, .loop pre f pc rest lvP loP bP hsr hbP hbf hopen, hb, by simp only []; omega⟩
+  | ifT pre done cur curOff0 off0 rest lvP loP bP chain0 hsr hbP hbf hoc hcn hdone hcurw =>
+    obtain ⟨hchain, hlevels⟩ := hsr.chain
+    have hlob : lo ≤ b := wfTags_le _ _ _ _ _ hb
+    have hdone' : wfCases c.length lv (done ++ [IfCase.mk cur storage lo (off - W1.elsePrefixLength)]) = true := by
+      rw [wfCases_snoc, hdone, hcurw, hpre]
+      simp only [Bool.true_and]
+      exact wfTags_mono _ _ _ _ _ _ hb (by omega) (by omega)
+    simp only []
+    apply Safe.bind (elseScan_safe c (c.length + 1) off)
+    intro r hr
+    obtain ⟨o, isIfElse⟩ := r
+    simp only [] at hr ⊢
+    split
+    · -- `<elseif case=…>`
+      apply Safe.bind (parseIfCase_safe c o)
+      intro r2 hr2
+      obtain ⟨o', caseOff, caseEnd⟩ := r2
+      obtain ⟨hr21, hr22⟩ := hr2
+      simp only [] at hr21 hr22 ⊢
+      apply Safe.bind (finderNext_any c hn h _)
+      intro s3 hp3
+      obtain ⟨p1, p2, p3, p4, p5, p6, p7, p8, p9⟩ := hp3
+      simp only [] at p1 p2 p3 p4 p7 p9
+      split
+      · rename_i hcond
+        apply Safe.bind (exprs_L cfg c lv s3.loopChain (by rw [p3]; exact hchain) (by rw [p3]; exact hlevels)
+          caseOff caseEnd (hr22 hcond.1))
+        intro cs hcs
+        refine Safe.ok _ ⟨p4.trans hchild, p8, p5, p6, lv, o', ?_, Or.inl ⟨o', ?_, p7⟩⟩
+        · simp only [p3]
+          exact .ifT pre _ cs o' off0 rest lv loP bP chain hsr hbP hbf (by omega) (by omega) hdone'
+            (itemsAll_wf c lv _ cs hcs)
+        · simp only [wfTags, decide_eq_true_eq]; omega
+      · apply finish c hn h _ (by simp only []; exact p4.trans hchild)
+        simp only [p3]
+        exact ⟨lv, loP, bP, hsr, hbP, by omega⟩
+    · split
+      · rename_i hlt
+        apply finish c hn h _ hchild
+        simp only []
+        refine ⟨lv, o + 1, o + 1, ?_, by simp only [wfTags, decide_eq_true_eq]; omega, Nat.le_refl _⟩
+        exact .ifT pre _ [] (o + 1) off0 rest lv loP bP chain hsr hbP hbf (by omega) (by omega) hdone'
+          (by simp [wfItemVars])
+      · apply finish c hn h _ hchild
+        simp only []
+        exact ⟨lv, loP, bP, hsr, hbP, by omega⟩
+
 /-- one iteration of the main loop -/
-theorem step_L (cfg : ScanCfg R) (c : List Nat) (hn : c.length + 16 < 4294967296) (h : OnlyLoops c)
+theorem step_L (cfg : ScanCfg R) (c : List Nat) (hn : c.length + 16 < 4294967296) (h : OnlyBlocks c)
     (st : PState R) (hi : LInv c st) (hm : st.mtch ≠ 0) : Safe (step cfg c st) (LInv c) := by
-  have hcases : st.mtch = 1 ∨ st.mtch = 2 ∨ st.mtch = 3 ∨ st.mtch = 4 ∨ st.mtch = 7 ∨ st.mtch = 8 := by
-    rcases hi.mtch with h | h | h <;> omega
-  rcases hcases with h1 | h2 | h3 | h4 | h7 | h8
+  have hcases : st.mtch = 1 ∨ st.mtch = 2 ∨ st.mtch = 3 ∨ st.mtch = 4 ∨ st.mtch = 7 ∨ st.mtch = 8 ∨
+      st.mtch = 9 ∨ st.mtch = 10 ∨ st.mtch = 11 := by
+    rcases hi.mtch with h | h <;> omega
+  rcases hcases with h1 | h2 | h3 | h4 | h7 | h8 | h9 | h10 | h11
   · have hstep : step cfg c st = stepLineEnd c st := by simp only [step, h1]; rfl
     rw [hstep]; exact stepLineEnd_L c hn h st hi h1
   · have hstep : step cfg c st = stepVar c st false := by simp only [step, h2]; rfl
@@ -849,9 +1113,15 @@ theorem step_L (cfg : ScanCfg R) (c : List Nat) (hn : c.length + 16 < 4294967296
     rw [hstep]; exact stepLoop_L c hn h st hi h7
   · have hstep : step cfg c st = stepLoopEnd c st := by simp only [step, h8]; rfl
     rw [hstep]; exact stepLoopEnd_L c hn h st hi h8
+  · have hstep : step cfg c st = stepIf cfg c st := by simp only [step, h9]; rfl
+    rw [hstep]; exact stepIf_L cfg c hn h st hi h9
+  · have hstep : step cfg c st = stepIfEnd c st := by simp only [step, h10]; rfl
+    rw [hstep]; exact stepIfEnd_L c hn h st hi h10
+  · have hstep : step cfg c st = stepElse cfg c st := by simp only [step, h11]; rfl
+    rw [hstep]; exact stepElse_L cfg c hn h st hi h11
 
 theorem parseMain_L (cfg : ScanCfg R) (c : List Nat) (hn : c.length + 16 < 4294967296)
-    (h : OnlyLoops c) : ∀ (fuel : Nat) (st : PState R), LInv c st →
+    (h : OnlyBlocks c) : ∀ (fuel : Nat) (st : PState R), LInv c st →
       Safe (parseMain cfg c fuel st) (LInv c) := by
   intro fuel
   induction fuel with
@@ -885,19 +1155,22 @@ theorem cleanup_L (c : List Nat) : ∀ (stack : List (Frame R)) (lv lo : Nat) (c
     | loop pre f pc rest lvP loP bP hsr hbP hbf hopen =>
       simp only [cleanup, Frame.pre]
       exact ih lvP loP pc pre hsr ⟨bP, hbP⟩
+    | ifT pre done cur curOff0 off0 rest lvP loP bP chain0 hsr hbP hbf hoc hcn hdone hcurw =>
+      simp only [cleanup, Frame.pre]
+      exact ih _ loP _ pre hsr ⟨bP, hbP⟩
 
-/-- `parse_wf`, stage "loops": a content whose Finder matches are `}`, `{var:`, `{raw:`, `{math:`,
-`<loop` and `</loop>` — any nesting, any attributes, closed or not — is scanned without an
-out-of-range read (including the length-unchecked comparisons of `checkLoopVariable`), and the tag
-tree returned is well-formed. -/
-theorem parse_wf_loops (cfg : ScanCfg R) (c : List Nat) (hn : c.length + 16 < 4294967296)
-    (h : OnlyLoops c) : Safe (parse cfg c) (fun tags => wf c.length tags = true) := by
+/-- `parse_wf`, stage "blocks": a content whose Finder matches are anything but `{svar:` and the
+inline `{if` — i.e. `}`, `{var:`, `{raw:`, `{math:`, `<loop`, `</loop>`, `<if`, `<else`, `</if>`, in
+any nesting and any (mal)formation — is scanned without an out-of-range read, and the tag tree
+returned is well-formed. -/
+theorem parse_wf_blocks (cfg : ScanCfg R) (c : List Nat) (hn : c.length + 16 < 4294967296)
+    (h : OnlyBlocks c) : Safe (parse cfg c) (fun tags => wf c.length tags = true) := by
   simp only [parse]
   apply Safe.bind (finderNext_L c hn h ({} : PState R) (Nat.zero_le _))
   intro st0 hp
   obtain ⟨p1, p2, p3, p4, p5, p6⟩ := hp
   have hi0 : LInv c st0 := by
-    refine ⟨p4, p6.le, p5, p6.cur p5, 0, 0, by rw [p2, p3]; exact .nil, Or.inl ⟨0, ?_, ?_⟩⟩
+    refine ⟨p4, fun _ => p6.le, p5, p6.cur p5, 0, 0, by rw [p2, p3]; exact .nil, Or.inl ⟨0, ?_, ?_⟩⟩
     · rw [p1]; simp [wfTags]
     · have := p6.start; simpa using this
   apply Safe.bind (parseMain_L cfg c hn h _ st0 hi0)
@@ -906,22 +1179,45 @@ theorem parse_wf_loops (cfg : ScanCfg R) (c : List Nat) (hn : c.length + 16 < 42
   refine Safe.ok _ ?_
   simp only [wf]
   apply cleanup_L c st'.stack lv lo st'.loopChain st'.storage hs
-  rcases hw with ⟨b, hb, _⟩ | ⟨he, _, hlo⟩
+  rcases hw with ⟨b, hb, _⟩ | ⟨he, hm, hlo, _⟩
   · exact ⟨b, hb⟩
-  · exact ⟨lo, by rw [he]; simp only [wfTags, decide_eq_true_eq]; have := hi'.off; omega⟩
+  · exact ⟨lo, by rw [he]; simp only [wfTags, decide_eq_true_eq]; have := hi'.off (by omega); omega⟩
 
-theorem render_safe_loops [RealLike R] (cx : RCtx R) (hg : cx.guardIndexRead = true)
-    (cfg : ScanCfg R) (hn : cx.content.length + 16 < 4294967296) (h : OnlyLoops cx.content)
+theorem parse_wf_loops (cfg : ScanCfg R) (c : List Nat) (hn : c.length + 16 < 4294967296)
+    (h : OnlyLoops c) : Safe (parse cfg c) (fun tags => wf c.length tags = true) :=
+  parse_wf_blocks cfg c hn h.blocks
+
+theorem render_safe_blocks [RealLike R] (cx : RCtx R) (hg : cx.guardIndexRead = true)
+    (cfg : ScanCfg R) (hn : cx.content.length + 16 < 4294967296) (h : OnlyBlocks cx.content)
     (fuel : Nat) :
     Safe ((parse cfg cx.content).bind (fun tags => renderTop cx tags fuel)) (fun _ => True) := by
-  have hp := parse_wf_loops cfg cx.content hn h
+  have hp := parse_wf_blocks cfg cx.content hn h
   cases hpe : parse cfg cx.content with
   | error e => rw [hpe] at hp; exact hp
   | ok tags =>
     rw [hpe] at hp
     exact render_safe_of_wf cx hg tags hp fuel
 
-/-- decidable form of `OnlyLoops` -/
+theorem render_safe_loops [RealLike R] (cx : RCtx R) (hg : cx.guardIndexRead = true)
+    (cfg : ScanCfg R) (hn : cx.content.length + 16 < 4294967296) (h : OnlyLoops cx.content)
+    (fuel : Nat) :
+    Safe ((parse cfg cx.content).bind (fun tags => renderTop cx tags fuel)) (fun _ => True) :=
+  render_safe_blocks cx hg cfg hn h.blocks fuel
+
+/-- decidable forms -/
+def onlyBlocksB (c : List Nat) : Bool :=
+  (List.range (c.length + 1)).all (fun off =>
+    match next c off with
+    | .ok (_, m) => decide (m ≤ 4 ∨ (7 ≤ m ∧ m ≤ 11))
+    | .error _ => true)
+
+theorem onlyBlocks_of_check (c : List Nat) (h : onlyBlocksB c = true) : OnlyBlocks c := by
+  intro off o m hoff hn
+  simp only [onlyBlocksB, List.all_eq_true, List.mem_range] at h
+  have := h off (by omega)
+  simp only [hn, decide_eq_true_eq] at this
+  exact this
+
 def onlyLoopsB (c : List Nat) : Bool :=
   (List.range (c.length + 1)).all (fun off =>
     match next c off with
